@@ -35,7 +35,7 @@ def main():
     ap.add_argument("--skip-suite", action="store_true")
     a = ap.parse_args()
     sd = os.path.abspath(a.seed_dir)
-    checks = ALL if a.checks == "all" else (a.checks.split(",") if a.checks else [a.prop])
+    checks = ALL if a.checks == "all" else ([] if a.checks == "none" else (a.checks.split(",") if a.checks else [a.prop]))
     scratch = tempfile.mkdtemp(prefix="seed_", dir="/tmp")
     meta = dict(property=a.prop, seed=os.path.basename(sd), evaluated_at=time.strftime("%Y-%m-%dT%H:%M:%S"), tier=a.tier)
     old = os.path.join(sd, "meta.json")
@@ -56,14 +56,16 @@ def main():
         if r.returncode != 0:
             meta["patch_error"] = (r.stdout + r.stderr)[-400:]
             return finish(sd, meta, scratch)
-        if not a.skip_suite:
+        if a.skip_suite and "suite" in meta:
+            pass
+        elif not a.skip_suite:
             r = sh(f"cd {scratch} && env -u IOOS_QC_VERIF /venv/bin/python -m pytest -q -p no:cacheprovider --timeout=900 --continue-on-collection-errors 2>&1 | tail -3")
             line = r.stdout.strip().splitlines()[-1] if r.stdout.strip() else ""
             m_p = re.search(r"(\d+) passed", line)
             m_f = re.search(r"(\d+) failed", line)
             meta["suite"] = dict(summary=line, passed=int(m_p.group(1)) if m_p else 0, failed=int(m_f.group(1)) if m_f else 0)
             meta["suite"]["ok"] = meta["suite"]["passed"] == 132 and meta["suite"]["failed"] == 10
-        if os.path.exists(os.path.join(sd, "demo.py")):
+        if os.path.exists(os.path.join(sd, "demo.py")) and not (a.skip_suite and "demo_with_change_rc" in meta):
             r1 = sh(f"cd /tmp && PYTHONPATH={scratch} /venv/bin/python {sd}/demo.py")
             r0 = sh(f"cd /tmp && PYTHONPATH=/repo /venv/bin/python {sd}/demo.py")
             meta["demo_with_change_rc"] = r1.returncode
@@ -78,6 +80,8 @@ def main():
             meta["checks"][c] = dict(rc=r.returncode, violations=nv, detected=(r.returncode == 1 and nv > 0), first_signatures=sigs, wall_s=round(time.time() - t0, 1), tier=a.tier)
             if r.returncode not in (0, 1):
                 meta["checks"][c]["stderr_tail"] = (r.stdout[-300:] + r.stderr[-600:])
+        if "demo_with_change_rc" in meta:
+            meta["demo_ok"] = meta["demo_with_change_rc"] != 0 and meta["demo_without_change_rc"] == 0
         meta["detected_by"] = sorted(c for c, v in meta["checks"].items() if v.get("detected"))
     finally:
         pass
